@@ -121,6 +121,13 @@ ShapeDef(i) ==
                   @@ A("S1", 3, 1) :> Fm(Bin("+", NameRef("Twice"), N1))
                   @@ A("S1", 4, 1) :> Fm(CallN("SUM", <<NameRef("Twice"), RelRef(2, 1), RelRef(3, 1)>>)) ),
          names |-> ("Twice" :> Ref("S1", 2, 1, TRUE, TRUE)), inputs |-> {A("S1", 1, 1)}]
+    [] i = "spill" ->        \* formulas whose value is an array, next to formulas reading the cells around them
+        [cells |-> ( A("S1", 1, 1) :> Kc(1) @@ A("S1", 1, 2) :> Kc(1)
+                  @@ A("S1", 3, 1) :> Fm(Rng("", 1, 1, 1, 2))
+                  @@ A("S1", 5, 1) :> Fm(Bin("+", RelRef(3, 2), N1))
+                  @@ A("S1", 8, 1) :> Fm(CallN("IF", <<BoolLit(TRUE), Rng("", 1, 1, 1, 2)>>))
+                  @@ A("S1", 9, 1) :> Fm(Bin("&", RelRef(8, 2), StrLit(<<120>>))) ),
+         names |-> <<>>, inputs |-> {A("S1", 1, 1), A("S1", 1, 2)}]
     [] i = "cross" ->
         [cells |-> ( A("S1", 1, 1) :> Kc(1) @@ A("S 2", 1, 1) :> Kc(1)
                   @@ A("S 2", 2, 1) :> Fm(Bin("*", RelRef(1, 1), N3))
